@@ -137,7 +137,9 @@ pub(crate) const ATTR_LOCALS: &[&str] = &["a", "b", "x", "y", "k1", "ö", "id"];
 pub(crate) const PI_TARGETS: &[&str] = &["pi", "xml-stylesheet", "t1"];
 pub(crate) const URIS: &[&str] = &["urn:a", "urn:b", "urn:c", "urn:n1", "urn:n2"];
 pub(crate) const URIS_REF: &[&str] = &["urn:x&y", "h://e?a=1&b='2'", "urn:<z>\"q\""];
-pub(crate) const PREFIXES: &[&str] = &["", "p", "q", "r", "s"];
+// non-ASCII prefixes: a prefixed name's span starts at the prefix, whose byte length is not its
+// character count (seed C17f); both are in the single-byte repertoire
+pub(crate) const PREFIXES: &[&str] = &["", "p", "q", "r", "s", "dé", "öß"];
 
 pub fn resolve<'a>(scope: &'a [(String, String)], prefix: &str) -> Option<&'a str> {
     if let Some(d) = scope.iter().rev().find(|d| d.0 == prefix) {
